@@ -147,3 +147,30 @@ Example C01_examples :
   get_integer_text I8 (add_integer_text I8 (-128) true) = Some ((-128)%Z, true) /\
   get_integer_text U64 (add_integer_text U64 18446744073709551615 false) = Some (18446744073709551615%Z, false).
 Proof. repeat split; vm_compute; reflexivity. Qed.
+
+(* ---------- a recorded finding, as the model shows it ---------- *)
+(* known finding uninterpreted-ifdata-integral-float: in IF_DATA that no definition describes, a float with an integral value is kept as
+   a float, written with Rust's shortest notation ("1") and read back as an integer - the models before and after the save differ
+   once (the text is stable from then on).  The float table entry is the one the implementation produces for "1.0". *)
+Definition demo_integral_float_table : list fentry :=
+  [mkFe (bytes_of "1.0") true 0x3FF0000000000000 (bytes_of "1") (bytes_of "1e0") true 0x3FF0000000000000 (bytes_of "1") (bytes_of "1e0")].
+Definition demo_uninterpreted (text : bytes) : option (gifd * bytes) :=
+  match tokenize_core 0 text with
+  | TOk toks =>
+      match unknown_ifdata_start 20 (mkCtx (bytes_of "IF_DATA") O 1) (init_state toks false 1 demo_integral_float_table) with
+      | (ROk g, _) => Some (g, gifd_write demo_integral_float_table [] 6 g 2)
+      | _ => None
+      end
+  | _ => None
+  end.
+Example C01_known_integral_float_witness :
+  match demo_uninterpreted (bytes_of "V 1.0 /end IF_DATA") with
+  | Some (GBlock _ _ [GTaggedUnion [(_, [GTI _ _ _ _ _ _ (GStruct _ _ [first]) _])]], written) =>
+      match demo_uninterpreted (written ++ bytes_of " /end IF_DATA") with
+      | Some (GBlock _ _ [GTaggedUnion [(_, [GTI _ _ _ _ _ _ (GStruct _ _ [second]) _])]], written2) =>
+          Some (first, second, bytes_eqb written written2)
+      | _ => None
+      end
+  | _ => None
+  end = Some (GFloat 0 0x3FF0000000000000, GInt "Long" 0 1 false, true).
+Proof. vm_compute. reflexivity. Qed.
